@@ -62,6 +62,7 @@ from mashumaro.core.meta.types.common import (
     ensure_generic_collection_subclass,
     ensure_generic_mapping,
     expr_or_maybe_none,
+    iter_outer_builders,
     random_hex,
 )
 from mashumaro.exceptions import (
@@ -242,14 +243,17 @@ def pack_dataclass(spec: ValueSpec) -> Optional[Expression]:
         method_loc = spec.origin_type if spec.builder.is_nailed else spec.attrs
         if get_class_that_defines_method(
             method_name, method_loc
-        ) != method_loc and (
-            spec.origin_type is not spec.builder.cls
-            or spec.builder.get_pack_method_name(
+        ) != method_loc and not any(
+            # the method is being compiled further up (dataclasses that
+            # refer to themselves or to each other)
+            outer.cls is spec.origin_type
+            and outer.get_pack_method_name(
                 type_args=type_args,
-                format_name=spec.builder.format_name,
-                encoder=spec.builder.encoder,
+                format_name=outer.format_name,
+                encoder=outer.encoder,
             )
-            != method_name
+            == method_name
+            for outer in iter_outer_builders(spec.builder)
         ):
             builder = spec.builder.__class__(
                 spec.origin_type,
@@ -262,6 +266,7 @@ def pack_dataclass(spec: ValueSpec) -> Optional[Expression]:
                     spec.attrs_registry if not spec.builder.is_nailed else None
                 ),
             )
+            builder.outer = spec.builder
             builder.add_pack_method()
         flags = spec.builder.get_pack_method_flags(spec.type)
         if spec.builder.is_nailed:
@@ -269,8 +274,8 @@ def pack_dataclass(spec: ValueSpec) -> Optional[Expression]:
         else:
             method_args = spec.expression
             if not hasattr(spec.attrs, method_name):
-                # self-referencing dataclass: the method is being compiled
-                return f"_cls.{method_name}({method_args})"
+                # the method is being compiled: bind it late via its holder
+                return f"{spec.cls_attrs_name}.{method_name}({method_args})"
             cls_alias = clean_id(type_name(spec.origin_type))
             method_name_alias = f"{cls_alias}_{method_name}"
             spec.builder.ensure_object_imported(
